@@ -15,5 +15,5 @@ ck.coq_project()
 PY
 (cd coq && timeout 3000 make -k -j16 2>&1 | grep -v "^Closed under\|^COQC\|^COQDEP" | tail -30)
 [ -f harness/Cargo.lock ] || cp /repo/Cargo.lock harness/Cargo.lock
-(cd harness && CARGO_TARGET_DIR=/verif/.cache/target RUSTFLAGS="--cfg anda_verif" timeout 6000 cargo build --offline --workspace 2>&1 | grep -v "^warning\|^ *|\|^ *=\|^ *-->\|^$" | tail -20)
+(cd harness && CARGO_TARGET_DIR=/verif/.cache/target RUSTFLAGS="--cfg anda_verif" timeout 6000 cargo build --offline --workspace --keep-going 2>&1 | grep -v "^warning\|^ *|\|^ *=\|^ *-->\|^$" | tail -20)
 echo "setup done"
